@@ -89,6 +89,8 @@ func zzInv(d *Decoder) bool {
 }
 ''',
       gen=("C06", "C06D", "C03", "C08H"),
+      imports_api='\t"github.com/bluenviron/mediacommon/v2/pkg/codecs/h264"\n',
+      extra_api='\n// C08 (unit-count cap on every path): a single NALU, then an aggregation packet\n// carrying n one-byte NALUs with n around the documented maximum, then a single\n// NALU - with arbitrary markers and timestamps, so that both the marker path and\n// the timestamp-split path are taken: no returned access unit holds more units\n// than the documented maximum.\nfunc ZzC08H264Count() {\n\td := zzDecoder()\n\tn := zzConcretize(zzIntIn("nnalus", h264.MaxNALUsPerAccessUnit-1, h264.MaxNALUsPerAccessUnit+2))\n\tstap := []byte{24}\n\tfor i := 0; i < n; i++ {\n\t\tstap = append(stap, 0, 1, 0x41)\n\t}\n\tseq := zzU16("seq")\n\tpls := [][]byte{{0x41}, stap, {0x41}}\n\tfor k, pl := range pls {\n\t\tp := &rtp.Packet{Header: rtp.Header{SequenceNumber: seq + uint16(k), Timestamp: zzU32("ts"), Marker: zzBool("marker")}, Payload: pl}\n\t\tout, err := d.Decode(p)\n\t\tif err == nil {\n\t\t\tzzAssert(len(out) <= h264.MaxNALUsPerAccessUnit, "returned access unit holds at most the documented number of units")\n\t\t}\n\t\tzzCover("returned", err == nil)\n\t}\n}\n',
       extra='''
 // C07 for H264. The decoder also splits access units by timestamp (cameras that
 // never set the marker), so an access unit may legitimately be handed over one
@@ -181,6 +183,8 @@ codec("rtph265", "H265", kind="units",
       imports='\t"github.com/bluenviron/mediacommon/v2/pkg/codecs/h265"\n',
       mlo=4, mhi=12, mlo03=4, mhi03=9, mhi07=7, p06=14, p03=12, p07=8, p08=8, k08=2, cap="h265.MaxAccessUnitSize",
       frame06='zzRawFrame2("frame", P)',
+      imports_api='\t"github.com/bluenviron/mediacommon/v2/pkg/codecs/h265"\n',
+      extra_api='\n// C08 (unit-count cap on every path), as for H264: aggregation packet (type 48)\n// with n two-byte NALUs, n around the documented maximum.\nfunc ZzC08H265Count() {\n\td := zzDecoder()\n\tn := zzConcretize(zzIntIn("nnalus", h265.MaxNALUsPerAccessUnit-1, h265.MaxNALUsPerAccessUnit+2))\n\tap := []byte{48 << 1, 1}\n\tfor i := 0; i < n; i++ {\n\t\tap = append(ap, 0, 2, 0x02, 0x01)\n\t}\n\tseq := zzU16("seq")\n\tpls := [][]byte{{0x02, 0x01}, ap, {0x02, 0x01}}\n\tfor k, pl := range pls {\n\t\tp := &rtp.Packet{Header: rtp.Header{SequenceNumber: seq + uint16(k), Timestamp: zzU32("ts"), Marker: zzBool("marker")}, Payload: pl}\n\t\tout, err := d.Decode(p)\n\t\tif err == nil {\n\t\t\tzzAssert(len(out) <= h265.MaxNALUsPerAccessUnit, "returned access unit holds at most the documented number of units")\n\t\t}\n\t\tzzCover("returned", err == nil)\n\t}\n}\n',
       valid='''
 func zzRawFrame2(name string, P int) zzFrameT {
 	n := zzConcretize(zzIntIn("nunits", 1, zzParam("N", 2)))
